@@ -52,6 +52,55 @@ def _call_name(c):
     return c.func.id if isinstance(c.func, ast.Name) else (c.func.attr if isinstance(c.func, ast.Attribute) else None)
 
 
+_HELPER_LEN = None  # set by the rules: (call, state) -> LF of the length of what a package helper returns, or None
+
+
+def helper_len_for(prog):
+    """length summaries of package functions: when every `return` of the helper has the same symbolic length in terms of
+    the lengths of its parameters, a call has that length with the arguments substituted"""
+    memo = {}
+
+    def summ(t):
+        if id(t) in memo:
+            return memo[id(t)]
+        memo[id(t)] = None
+        pn = t.params()
+        st0 = State(lens={p_: lf_sym("len(@%s)" % p_) for p_ in pn})
+        rets = [r.value for r in ast.walk(t.node) if isinstance(r, ast.Return) and r.value is not None and enclosing_fn(r) is t]
+        # locals assigned once before the returns (straight-line helpers)
+        ends = (sym_exec([s_ for s_ in t.node.body if not isinstance(s_, ast.Return)], st0) or [st0]) if rets else []
+        if ends and len(ends) <= 16 and rets:
+            ls = [length(r, e_) for r in rets for e_ in ends]
+            if all(x == ls[0] for x in ls) and ls[0] and all(k == "1" or (k.startswith("len(@") and k[5:-1] in pn) for k in ls[0]):
+                memo[id(t)] = ls[0]
+        return memo[id(t)]
+
+    def helper_len(call, st):
+        if not isinstance(call.func, (ast.Name, ast.Attribute)):
+            return None
+        tg = [t for t in prog.resolve_expr_fn(call.func, call) if isinstance(t, FunctionInfo) and isinstance(t.node, ast.FunctionDef)]
+        if len(tg) != 1:
+            return None
+        lf = summ(tg[0])
+        if lf is None:
+            return None
+        pn = tg[0].params()
+        bind = dict(zip(pn, call.args))
+        bind.update({k.arg: k.value for k in call.keywords if k.arg})
+        out = {}
+        for k, v in lf.items():
+            if k == "1":
+                out = lf_add(out, {"1": v})
+            else:
+                a = bind.get(k[5:-1])
+                if a is None or isinstance(a, ast.Starred):
+                    return None
+                la = length(a, st)
+                out = lf_add(out, {kk: vv * v for kk, vv in la.items()})
+        return out
+    return helper_len
+
+
 def length(e, st):
     """LF for len(e)."""
     if isinstance(e, (ast.List, ast.Tuple)):
@@ -79,6 +128,15 @@ def length(e, st):
             return length(e.args[0], st)
         if nm == "map" and len(e.args) == 2:
             return length(e.args[1], st)
+        if nm in ("map", "zip") and len(e.args) >= 2:
+            # parallel iteration stops at the shortest: a known length only when all lengths agree
+            ls = [length(a, st) for a in (e.args[1:] if nm == "map" else e.args)]
+            if all(x == ls[0] for x in ls):
+                return ls[0]
+        if _HELPER_LEN is not None:
+            hl = _HELPER_LEN(e, st)
+            if hl is not None:
+                return hl
         if nm == "enumerate" and e.args:
             return length(e.args[0], st)
         if nm == "islice" and len(e.args) == 2 and isinstance(e.args[0], ast.Call) and _call_name(e.args[0]) in ("cycle", "repeat", "count"):
@@ -192,6 +250,15 @@ def lf_equal(a, b, assume):
 
 # ---------------------------------------------------------------------------- ALIGN-emit
 def rule_align_emit(prog, rep, tier):
+    global _HELPER_LEN
+    _HELPER_LEN = helper_len_for(prog)
+    try:
+        return _rule_align_emit(prog, rep, tier)
+    finally:
+        _HELPER_LEN = None
+
+
+def _rule_align_emit(prog, rep, tier):
     """ALIGN-emit: every `ast.arguments(...)` built by the package satisfies, as identities over symbolic lengths,
     len(kw_defaults) == len(kwonlyargs), and `defaults` is element-wise aligned with the tail of `args`
     (every length symbol of `defaults` occurs with the same coefficient in posonlyargs+args)."""
